@@ -31,7 +31,7 @@ struct TypeName<char32_t> {
     static const char *get() { return "char32_t"; }
 };
 
-enum OpKind { CTOR_DEFAULT, CTOR_PTR, CTOR_FILL, CTOR_COPY, CTOR_MOVE, DTOR, ASSIGN_COPY, ASSIGN_MOVE, ALLOCATE, ALLOCATE_FILL, CLEAR };
+enum OpKind { CTOR_DEFAULT, CTOR_PTR, CTOR_FILL, CTOR_COPY, CTOR_MOVE, DTOR, ASSIGN_COPY, ASSIGN_MOVE, ALLOCATE, ALLOCATE_FILL, CLEAR, CTOR_FILL0, ALLOCATE_FILL0 };
 struct Op {
     OpKind k;
     int i, j;  // slots
@@ -61,7 +61,10 @@ struct BufSys {
             for (size_t n : lens) ops.push_back(Op{CTOR_PTR, i, -1, n});
         for (int i = 0; i < NS; ++i)
             for (size_t n : {size_t(0), LL - 1, LL + 1})
-                if (!reduced) ops.push_back(Op{CTOR_FILL, i, -1, n});
+                if (!reduced) {
+                    ops.push_back(Op{CTOR_FILL, i, -1, n});
+                    if (n) ops.push_back(Op{CTOR_FILL0, i, -1, n});  // the fill value is the zero unit
+                }
         for (int i = 0; i < NS; ++i)
             for (int j = 0; j < NS; ++j)
                 if (i != j) {
@@ -78,7 +81,10 @@ struct BufSys {
             for (size_t n : lens) ops.push_back(Op{ALLOCATE, i, -1, n});
         for (int i = 0; i < NS; ++i)
             for (size_t n : {size_t(0), LL - 1, LL})
-                if (!reduced) ops.push_back(Op{ALLOCATE_FILL, i, -1, n});
+                if (!reduced) {
+                    ops.push_back(Op{ALLOCATE_FILL, i, -1, n});
+                    if (n) ops.push_back(Op{ALLOCATE_FILL0, i, -1, n});
+                }
         for (int i = 0; i < NS; ++i) ops.push_back(Op{CLEAR, i, -1, 0});
         vf::tracking_begin();
     }
@@ -101,11 +107,13 @@ struct BufSys {
         switch (o.k) {
         case CTOR_DEFAULT:
         case CTOR_PTR:
+        case CTOR_FILL0:
         case CTOR_FILL: return !slots[o.i].alive;
         case CTOR_COPY:
         case CTOR_MOVE: return !slots[o.i].alive && slots[o.j].alive;
         case DTOR:
         case ALLOCATE:
+        case ALLOCATE_FILL0:
         case ALLOCATE_FILL:
         case CLEAR: return slots[o.i].alive;
         case ASSIGN_COPY:
@@ -120,6 +128,8 @@ struct BufSys {
         case CTOR_DEFAULT: return strf("new(s%d) buffer()", o.i);
         case CTOR_PTR: return strf("new(s%d) buffer(ptr,%zu)", o.i, o.n);
         case CTOR_FILL: return strf("new(s%d) buffer(%zu,'x')", o.i, o.n);
+        case CTOR_FILL0: return strf("new(s%d) buffer(%zu,NUL)", o.i, o.n);
+        case ALLOCATE_FILL0: return strf("s%d.allocate(%zu,NUL)", o.i, o.n);
         case CTOR_COPY: return strf("new(s%d) buffer(s%d)", o.i, o.j);
         case CTOR_MOVE: return strf("new(s%d) buffer(std::move(s%d))", o.i, o.j);
         case DTOR: return strf("s%d.~buffer()", o.i);
@@ -349,6 +359,17 @@ struct BufSys {
                 slots[o.i].alive = true;
                 okind = "fill-ctor";
                 break;
+            case CTOR_FILL0:
+                expect = Str(o.n, T());
+                LIB(new (bi) B(o.n, T()));
+                slots[o.i].alive = true;
+                okind = "fill-ctor";
+                break;
+            case ALLOCATE_FILL0:
+                expect = Str(o.n, T());
+                LIB(bi->allocate(o.n, T()));
+                okind = "allocate-fill";
+                break;
             case CTOR_COPY:
                 expect = src_val;
                 LIB(new (bi) B(*static_cast<const B *>(bj)));
@@ -494,22 +515,28 @@ struct BufSys {
                 if (b.to_std_string() != v) fail("to_std_string", "to_std_string() wrong");
                 if (Str(b.view()) != v) fail("view", "view() wrong");
                 if (v.size() >= 2 && Str(b.view(1, v.size() - 2)) != v.substr(1, v.size() - 2)) fail("view-range", "view(1,n-2) wrong");
-                if (B::strlen(b.c_str()) != v.size()) fail("strlen", "strlen(c_str()) != size() for NUL-free content");
-                if (sgn(b.compare(b.c_str())) != 0) fail("compare-cstr", "compare(c_str()) != 0");
+                const size_t zpos = v.find(T());  // first zero unit of the content (zero-filled values have one)
+                const size_t clen = zpos == Str::npos ? v.size() : zpos;
+                if (B::strlen(b.c_str()) != clen) fail("strlen", "strlen(c_str()) is not the length up to the first zero unit");
+                if (sgn(b.compare(b.c_str())) != (clen == v.size() ? 0 : 1)) fail("compare-cstr", "compare(c_str()) wrong");
                 if (sgn(b.compare((const T *)nullptr)) != (v.empty() ? 0 : 1)) fail("compare-null", "compare(nullptr) wrong");
                 for (int t = 0; t < NS; ++t) {
                     if (!slots[t].alive) continue;
                     const B &c = *slots[t].obj();
                     Str w = content(t);
                     int want = sgn(v.compare(w));
+                    const size_t wz = w.find(T());
+                    const Str wc = wz == Str::npos ? w : w.substr(0, wz);  // what a C-string pointer to w denotes
+                    const int wantc = sgn(v.compare(wc));
                     n_reads += 8;
                     if (sgn(b.compare(c)) != want) fail("compare", strf("compare(s%d,s%d) sign wrong", s, t));
-                    if (sgn(b.compare(c.c_str())) != want) fail("compare-cstr", strf("compare(s%d, s%d.c_str()) sign wrong", s, t));
+                    if (sgn(b.compare(c.c_str())) != wantc) fail("compare-cstr", strf("compare(s%d, s%d.c_str()) sign wrong", s, t));
                     if ((b == c) != (want == 0) || (b != c) != (want != 0) || (b < c) != (want < 0)) fail("operators", "==, != or < disagrees with compare");
                     for (size_t n : {size_t(0), size_t(1), v.size(), v.size() + 1, (size_t)-1}) {
                         int wn = sgn(v.substr(0, std::min(n, v.size())).compare(w.substr(0, std::min(n, w.size()))));
                         if (sgn(b.compare_n(c, n)) != wn) fail("compare_n", strf("compare_n(s%d,s%d,%zu) sign wrong", s, t, n));
-                        if (sgn(b.compare_n(c.c_str(), n)) != wn) fail("compare_n-cstr", strf("compare_n(s%d,s%d.c_str(),%zu) sign wrong", s, t, n));
+                        int wnc = sgn(v.substr(0, std::min(n, v.size())).compare(wc.substr(0, std::min(n, wc.size()))));
+                        if (sgn(b.compare_n(c.c_str(), n)) != wnc) fail("compare_n-cstr", strf("compare_n(s%d,s%d.c_str(),%zu) sign wrong", s, t, n));
                     }
                 }
             });
